@@ -639,7 +639,7 @@ template <class D> struct ObjHarness : Harness {
     pid_t g = fork();
     if (g < 0) return false;
     if (g == 0) {
-      signal(SIGALRM, SIG_DFL); alarm(30);     // never leave an orphan behind
+      kit_cpu_deadline(30);     // never leave an orphan behind
       R.ctx.reset_for_branch();
       body();
       R.ctx.flush(false);
